@@ -16,6 +16,11 @@
                 E2OnCurve  E2Neg  E2Add  E2Mul  (y^2 + xy = x^3 + A x^2 + B, affine, O = <<>>)
                 GTr(x, f)  DstuCompress(C, x, y)  DstuRecoverOk(C, xp, x, y)  DstuVerifyEq(C, P, n, h, r, s, Q)
      pfok       PfokPub(P, x)  PfokDH(P, x, y)  PfokMTI(P, x, u, y, v)  PfokTrimKey(v, n)
+     signing    G12sSign(E, P, q, d, e, tape)  B96Sign(E, G, q, oid, H, d, tape)  DstuSign(C, P, n, d, h, tape)
+                = [ok, r / sig, s, used, why]: the standards' signing algorithms INCLUDING their repetitions: the generator
+                delivers the draws of the tape one after the other; a draw is discarded when the one-time key is out of
+                range, when r = 0 and when s = 0 (why[j] names the branch draw j takes); the signature is defined by the
+                first draw that passes all conditions (why[used] = "used")
    Hash reduction classes: G12sE identifies H, H +- q and maps 0 to 1; DstuH keeps the first m bits and maps 0 to 1;
    bign96 feeds the octets of H to belt-hash, so every alteration of H changes the signed value. *)
 EXTENDS BigNat, GF2Poly, FiniteSets
@@ -77,6 +82,45 @@ B96Verify(E, G, q, oid, H, sig, Q) ==
   IN /\ Len(sig) = 34 /\ Less(s1, q)
      /\ LET R == B96VerifyR(E, G, q, H, s0, s1, Q)
         IN ~EB!IsO(R) /\ B96S0(oid, R[1], H) = SubSeq(sig, 1, 10)
+
+\* ------------------------------------------------------------------ signing: the repetitions over the generator's draws
+\* judge(j) = [why, r, s] is the verdict of the algorithm on draw j (chunk j of the tape) ALONE: why = "used" if the draw
+\* passes every condition (then r, s are the signature components), else the name of the branch that discards it.
+\* range(w) tells the out-of-range branches: zz.h (zzRandNZMod) gives up after MaxTries consecutive ones.  The algorithm
+\* walks through the draws in order; the result is defined by the FIRST draw judged "used".  A tape without such a draw
+\* (zeros follow its end) yields no signature.
+SignLoop(tape, len, judge(_), range(_)) ==
+  LET nd == (Len(tape) + len - 1) \div len
+  IN FoldLeft(LAMBDA st, j :
+                IF st.ok \/ st.run >= MaxTries THEN st
+                ELSE LET v == judge(j)
+                     IN IF v.why = "used" THEN [ok |-> TRUE, r |-> v.r, s |-> v.s, used |-> j, why |-> Append(st.why, "used"), run |-> 0]
+                        ELSE [st EXCEPT !.why = Append(st.why, v.why), !.run = IF range(v.why) THEN st.run + 1 ELSE 0],
+              [ok |-> FALSE, r |-> Zero, s |-> Zero, used |-> 0, why |-> <<>>, run |-> 0], Rng(1, nd))
+\* one-time key of zzRandNZMod (g12s, bign96): the chunk of O_OF_B(|q|) octets trimmed to |q| bits; 0 and >= q are out of range
+DrawOf(tape, j, q) == Norm(ModPow2(Num(TapeChunk(tape, j, (BitLen(q) + 7) \div 8)), BitLen(q)))
+
+\* GOST R 34.10-2012 6.1: step 3 k <-R (0, q); step 4 C = kP, r = x_C mod q, r = 0 -> step 3; step 5 s = (r d + k e) mod q,
+\* s = 0 -> step 3
+G12sSign(E, P, q, d, e, tape) ==
+  SignLoop(tape, (BitLen(q) + 7) \div 8,
+           LAMBDA j : LET k == DrawOf(tape, j, q)
+                      IN IF IsZero(k) THEN [why |-> "k=0", r |-> Zero, s |-> Zero]
+                         ELSE IF ~Less(k, q) THEN [why |-> "k>=q", r |-> Zero, s |-> Zero]
+                         ELSE LET rr == G12sROf(E, P, k, q)
+                              IN IF IsZero(rr) THEN [why |-> "r=0", r |-> Zero, s |-> Zero]
+                                 ELSE LET ss == G12sSOf(rr, d, k, e, q)
+                                      IN IF IsZero(ss) THEN [why |-> "s=0", r |-> rr, s |-> Zero]
+                                         ELSE [why |-> "used", r |-> rr, s |-> ss],
+           LAMBDA w : w \in {"k=0", "k>=q"})
+\* bign96: k <-R {1, ..., q - 1} is the only repetition (no condition on s0, s1); r carries the 34 octets of the signature
+B96Sign(E, G, q, oid, H, d, tape) ==
+  SignLoop(tape, (BitLen(q) + 7) \div 8,
+           LAMBDA j : LET k == DrawOf(tape, j, q)
+                      IN IF IsZero(k) THEN [why |-> "k=0", r |-> <<>>, s |-> Zero]
+                         ELSE IF ~Less(k, q) THEN [why |-> "k>=q", r |-> <<>>, s |-> Zero]
+                         ELSE [why |-> "used", r |-> B96SignWith(E, G, q, oid, H, d, k), s |-> k],
+           LAMBDA w : w \in {"k=0", "k>=q"})
 
 \* ------------------------------------------------------------------ GF(2^m), binary curves y^2 + xy = x^3 + A x^2 + B
 DstuField(f) == LET t == PAdd(PAdd(PMonomial(f[1]), PMonomial(f[2])), POne)
@@ -198,6 +242,24 @@ DstuSigParts(sig, ld, n) ==
        \A i \in (on + 1)..h : sig[i] = 0 /\ sig[h + i] = 0>>
 DstuLdOk(ld, n) == ld % 16 = 0 /\ ld >= 16 * ((BitLen(n) + 7) \div 8)
 DstuSigInRange(r, s, n) == ~IsZero(r) /\ Less(r, n) /\ ~IsZero(s) /\ Less(s, n)
+\* DSTU 4145-2002 section 11 (one-time key by 6.3: a chunk of O_OF_B(|n|) octets trimmed to |n| - 1 bits, 0 discarded):
+\* R = eP, x_R = 0 -> repeat;  y = h x_R, r = trunc(y), r = 0 -> repeat;  s = (e + d r) mod n, s = 0 -> repeat
+DstuSign(C, P, n, d, h, tape) ==
+  LET nb == BitLen(n)
+      len == (nb + 7) \div 8
+  IN SignLoop(tape, len,
+              LAMBDA j : LET e == Norm(ModPow2(Num(TapeChunk(tape, j, len)), nb - 1))
+                         IN IF IsZero(e) THEN [why |-> "e=0", r |-> Zero, s |-> Zero]
+                            ELSE LET R == E2Mul(C, e, P)
+                                 IN IF E2IsO(R) \/ PIsZero(R[1]) THEN [why |-> "x=0", r |-> Zero, s |-> Zero]
+                                    ELSE LET rr == DstuTrunc(GMul(h, R[1], C.F), nb)
+                                         IN IF IsZero(rr) THEN [why |-> "r=0", r |-> Zero, s |-> Zero]
+                                            ELSE LET ss == DstuSOf(e, d, rr, n)
+                                                 IN IF IsZero(ss) THEN [why |-> "s=0", r |-> rr, s |-> Zero]
+                                                    ELSE [why |-> "used", r |-> rr, s |-> ss],
+              LAMBDA w : FALSE)                     \* the standard sets no limit on the number of discarded draws
+\* 5.10: r and s, each in ld / 16 octets
+DstuSigOct(r, s, ld) == Oct(r, ld \div 16) \o Oct(s, ld \div 16)
 \* verification equation: R = sP + rQ, y = h x_R, r = trunc(y)
 DstuVerifyEq(C, P, n, h, r, s, Q) ==
   LET R == E2Add(C, E2Mul(C, s, P), E2Mul(C, r, Q))
